@@ -111,12 +111,64 @@ Proof.
            rewrite E0. cbn [app]. apply I3. exact Hin.
 Qed.
 
+(* ---- the sorter with the in-memory sort left abstract: Sorter.s_* are the instances at the stable
+   insertion sort (sort_entries); sort_unstable_by_key and the rayon variants are other instances ---- *)
+Definition gs_write_chunk (sortf : list entry -> list entry) (mf : mergefn) (st : sstate) : outcome sstate :=
+  let sorted := sortf (rev (ss_pending st)) in
+  do r <- merge_groups mf (ss_calls st) (group_sorted sorted);
+  let b := ss_buf st in
+  Done (mk_sstate [] (mk_ebuf (eb_L b) 0 0) (ss_chunks st ++ [fst r]) (snd r)
+                  (EvSpill (len (ss_chunks st) + 1) :: EvCreate :: ss_events st)).
+
+Definition gs_insert (sortf : list entry -> list entry) (c : scfg) (mf : mergefn) (st : sstate) (k v : bytes) : outcome sstate :=
+  if (U32_MAX <? len k) || (U32_MAX <? len v) then Panic else
+  let sz := entry_sz k v in
+  do f <- eb_fits (ss_buf st) sz;
+  let threshold_exceeded := sc_threshold c <=? eb_L (ss_buf st) in
+  if f || (negb threshold_exceeded && sc_realloc c) then
+    do b <- eb_insert 80 (ss_buf st) sz;
+    Done (mk_sstate ((k, v) :: ss_pending st) b (ss_chunks st) (ss_calls st) (ss_events st))
+  else
+    do st1 <- gs_write_chunk sortf mf st;
+    do b <- eb_insert 80 (ss_buf st1) sz;
+    let st2 := mk_sstate [(k, v)] b (ss_chunks st1) (ss_calls st1) (ss_events st1) in
+    if sc_max_chunks c <=? len (ss_chunks st2) then s_merge_chunks mf st2 else Done st2.
+
+Fixpoint gs_inserts (sortf : list entry -> list entry) (c : scfg) (mf : mergefn) (st : sstate) (ins : list entry) : outcome sstate :=
+  match ins with
+  | [] => Done st
+  | (k, v) :: r => do st' <- gs_insert sortf c mf st k v; gs_inserts sortf c mf st' r
+  end.
+
+Definition gs_finish (sortf : list entry -> list entry) (mf : mergefn) (st : sstate) : outcome (list entry * list (list entry)) :=
+  do st1 <- gs_write_chunk sortf mf st;
+  do r <- merge_run mf (ss_calls st1) (ss_chunks st1);
+  Done (fst r, ss_chunks st1).
+
+Definition gsorter_run (sortf : list entry -> list entry) (c : scfg) (mf : mergefn) (ins : list entry) : outcome (list entry) :=
+  do st <- gs_inserts sortf c mf (s_new c) ins;
+  do r <- gs_finish sortf mf st;
+  Done (fst r).
+
+Lemma gs_inserts_stable c mf : forall ins st, s_inserts c mf st ins = gs_inserts sort_entries c mf st ins.
+Proof. induction ins as [|[k v] ins IH]; intro st; [reflexivity|]. cbn [s_inserts gs_inserts]. change (gs_insert sort_entries c mf st k v) with (s_insert c mf st k v). destruct (s_insert c mf st k v); cbn [bind]; auto. Qed.
+
+Lemma gsorter_run_stable c mf ins : sorter_run c mf ins = gsorter_run sort_entries c mf ins.
+Proof. unfold sorter_run, gsorter_run. rewrite gs_inserts_stable. reflexivity. Qed.
+
+Lemma val_in_perm k (l l' : list entry) : Permutation l l' -> Permutation (val_in k l) (val_in k l').
+Proof.
+  induction 1 as [|x l l' _ IH|x y l|l l' l'' _ IH1 _ IH2]; [constructor| | |].
+  - rewrite !val_in_cons. apply Permutation_app_head. exact IH.
+  - rewrite !val_in_cons, !app_assoc. apply Permutation_app_tail. apply Permutation_app_comm.
+  - exact (Permutation_trans IH1 IH2).
+Qed.
+
 Section Canon.
   Variable f : bytes -> list bytes -> bytes.
   Variable mf : mergefn.
   Hypothesis mf_pure : forall ord k vs, mf ord k vs = Done (f k vs).
   Hypothesis f_flat : forall k vss, vss <> [] -> Forall (fun vs => vs <> []) vss -> f k (map (f k) vss) = f k (concat vss).
-
   Definition canon (l out : list entry) : Prop :=
     StronglySorted blt (map fst out) /\
     (forall k, In k (map fst out) <-> In k (map fst l)) /\
@@ -145,30 +197,6 @@ Section Canon.
     rewrite (C1 k v ltac:(left; reflexivity)), (C2 k v2 ltac:(left; reflexivity)). f_equal.
     apply IH; [intros k0 v0 H; apply C1; right; exact H|intros k0 v0 H; apply C2; right; exact H|exact Ek].
   Qed.
-
-  (* ---- write_chunk: sort, group, one merge call per key ---- *)
-  Lemma merge_groups_pure : forall gs calls,
-    merge_groups mf calls gs = Done (map (fun g => (fst g, f (fst g) (snd g))) gs, calls + len gs).
-  Proof.
-    clear f_flat. induction gs as [|[k vs] gs IH]; intro calls; cbn [merge_groups map].
-    - change (len (@nil (bytes * list bytes))) with 0. f_equal. f_equal. lia.
-    - rewrite mf_pure. cbn [bind]. rewrite IH. cbn [bind fst snd]. rewrite len_cons. f_equal. f_equal. lia.
-  Qed.
-
-  Definition SM (l : list entry) : list entry :=
-    map (fun g => (fst g, f (fst g) (snd g))) (group_sorted (sort_entries l)).
-
-  Lemma SM_canon l : canon l (SM l).
-  Proof.
-    unfold SM, canon. destruct (group_sorted_spec (sort_entries l) (sort_entries_sorted l)) as (A & B & C & _).
-    rewrite map_map. cbn [fst]. split; [exact A|]. split.
-    - intro k. rewrite B. apply val_in_perm_keys. apply sort_entries_perm.
-    - intros k v Hin. apply in_map_iff in Hin. destruct Hin as ([k0 vs] & E & Hin). cbn [fst snd] in E. injection E as <- <-.
-      rewrite (C k0 vs Hin), sort_entries_stable. reflexivity.
-  Qed.
-
-  Lemma write_groups l calls : merge_groups mf calls (group_sorted (sort_entries l)) = Done (SM l, calls + len (SM l)).
-  Proof. clear f_flat. rewrite merge_groups_pure. unfold SM. rewrite !len_length, map_length. reflexivity. Qed.
 
   (* ---- merging canonical chunks ---- *)
   Lemma val_in_sorted_in c k v : StronglySorted blt (map fst c) -> In (k, v) c -> val_in k c = [v].
@@ -245,6 +273,38 @@ Section Canon.
       + apply Forall_forall. intros x Hx. apply filter_In in Hx. destruct Hx as [_ Hx]. destruct x; [discriminate|discriminate].
   Qed.
 
+  (* the in-memory sort: a sorted permutation that does not change what the merge function returns for
+     the values of a key (a stable sort; or any sort when the merge function ignores the order) *)
+  Variable sortf : list entry -> list entry.
+  Hypothesis sort_sorted : forall l, sorted_leb (sortf l) = true.
+  Hypothesis sort_perm : forall l, Permutation (sortf l) l.
+  Hypothesis sort_vals : forall k l, f k (val_in k (sortf l)) = f k (val_in k l).
+
+
+  (* ---- write_chunk: sort, group, one merge call per key ---- *)
+  Lemma merge_groups_pure : forall gs calls,
+    merge_groups mf calls gs = Done (map (fun g => (fst g, f (fst g) (snd g))) gs, calls + len gs).
+  Proof.
+    clear f_flat. induction gs as [|[k vs] gs IH]; intro calls; cbn [merge_groups map].
+    - change (len (@nil (bytes * list bytes))) with 0. f_equal. f_equal. lia.
+    - rewrite mf_pure. cbn [bind]. rewrite IH. cbn [bind fst snd]. rewrite len_cons. f_equal. f_equal. lia.
+  Qed.
+
+  Definition SM (l : list entry) : list entry :=
+    map (fun g => (fst g, f (fst g) (snd g))) (group_sorted (sortf l)).
+
+  Lemma SM_canon l : canon l (SM l).
+  Proof.
+    clear f_flat. unfold SM, canon. destruct (group_sorted_spec (sortf l) (sort_sorted l)) as (A & B & C & _).
+    rewrite map_map. cbn [fst]. split; [exact A|]. split.
+    - intro k. rewrite B. apply val_in_perm_keys. apply sort_perm.
+    - intros k v Hin. apply in_map_iff in Hin. destruct Hin as ([k0 vs] & E & Hin). cbn [fst snd] in E. injection E as <- <-.
+      rewrite (C k0 vs Hin). apply sort_vals.
+  Qed.
+
+  Lemma write_groups l calls : merge_groups mf calls (group_sorted (sortf l)) = Done (SM l, calls + len (SM l)).
+  Proof. clear f_flat. rewrite merge_groups_pure. unfold SM. rewrite !len_length, map_length. reflexivity. Qed.
+
   (* ---- the sorter: every state is a chunked history ---- *)
   Definition SInv (hist : list entry) (st : sstate) : Prop :=
     exists segs, Forall2 canon segs (ss_chunks st) /\ hist = concat segs ++ rev (ss_pending st).
@@ -252,10 +312,10 @@ Section Canon.
   Lemma Forall2_snoc {A B} (R : A -> B -> Prop) l1 l2 a b : Forall2 R l1 l2 -> R a b -> Forall2 R (l1 ++ [a]) (l2 ++ [b]).
   Proof. intros H Hab. apply Forall2_app; [exact H|constructor; [exact Hab|constructor]]. Qed.
 
-  Lemma write_chunk_inv hist st st1 : SInv hist st -> s_write_chunk mf st = Done st1 ->
+  Lemma write_chunk_inv hist st st1 : SInv hist st -> gs_write_chunk sortf mf st = Done st1 ->
     SInv hist st1 /\ ss_pending st1 = [].
   Proof.
-    intros (segs & HF & Eh) H. unfold s_write_chunk in H. rewrite write_groups in H. cbn [bind fst snd] in H. injection H as <-.
+    intros (segs & HF & Eh) H. unfold gs_write_chunk in H. rewrite write_groups in H. cbn [bind fst snd] in H. injection H as <-.
     cbn [ss_pending ss_chunks]. split; [|reflexivity]. exists (segs ++ [rev (ss_pending st)]).
     split; [apply Forall2_snoc; [exact HF|apply SM_canon]|]. rewrite concat_app. cbn [concat rev]. rewrite !app_nil_r. exact Eh.
   Qed.
@@ -269,15 +329,15 @@ Section Canon.
     cbn [concat]. rewrite app_nil_r. exact Eh.
   Qed.
 
-  Lemma s_insert_inv c hist st k v st' : SInv hist st -> s_insert c mf st k v = Done st' -> SInv (hist ++ [(k, v)]) st'.
+  Lemma s_insert_inv c hist st k v st' : SInv hist st -> gs_insert sortf c mf st k v = Done st' -> SInv (hist ++ [(k, v)]) st'.
   Proof.
-    intros Hinv H. unfold s_insert in H. revert H. generalize 80%nat. intros fuel H.
+    intros Hinv H. unfold gs_insert in H. revert H. generalize 80%nat. intros fuel H.
     destruct ((U32_MAX <? len k) || (U32_MAX <? len v)); [discriminate|].
     destruct (eb_fits (ss_buf st) (entry_sz k v)) as [fits| |]; cbn [bind] in H; try discriminate.
     destruct (fits || (negb (sc_threshold c <=? eb_L (ss_buf st)) && sc_realloc c)).
     - destruct (eb_insert fuel (ss_buf st) (entry_sz k v)) as [b| |]; cbn [bind] in H; try discriminate. injection H as <-.
       destruct Hinv as (segs & HF & Eh). exists segs. cbn [ss_chunks ss_pending rev]. split; [exact HF|]. rewrite Eh, app_assoc. reflexivity.
-    - destruct (s_write_chunk mf st) as [st1| |] eqn:Ew; cbn [bind] in H; try discriminate.
+    - destruct (gs_write_chunk sortf mf st) as [st1| |] eqn:Ew; cbn [bind] in H; try discriminate.
       destruct (write_chunk_inv hist st st1 Hinv Ew) as [(segs & HF & Eh) Hp].
       destruct (eb_insert fuel (ss_buf st1) (entry_sz k v)) as [b| |]; cbn [bind] in H; try discriminate.
       set (st2 := mk_sstate [(k, v)] b (ss_chunks st1) (ss_calls st1) (ss_events st1)) in *.
@@ -288,30 +348,73 @@ Section Canon.
       + injection H as <-. exact Hinv2.
   Qed.
 
-  Lemma s_inserts_inv c : forall ins hist st st', SInv hist st -> s_inserts c mf st ins = Done st' -> SInv (hist ++ ins) st'.
+  Lemma s_inserts_inv c : forall ins hist st st', SInv hist st -> gs_inserts sortf c mf st ins = Done st' -> SInv (hist ++ ins) st'.
   Proof.
-    induction ins as [|[k v] ins IH]; intros hist st st' Hinv H; cbn [s_inserts] in H.
+    induction ins as [|[k v] ins IH]; intros hist st st' Hinv H; cbn [gs_inserts] in H.
     - injection H as <-. rewrite app_nil_r. exact Hinv.
-    - destruct (s_insert c mf st k v) as [st1| |] eqn:E; cbn [bind] in H; try discriminate.
+    - destruct (gs_insert sortf c mf st k v) as [st1| |] eqn:E; cbn [bind] in H; try discriminate.
       pose proof (s_insert_inv c hist st k v st1 Hinv E) as Hinv1.
       specialize (IH _ _ _ Hinv1 H). rewrite <- app_assoc in IH. exact IH.
   Qed.
 
-  (* ================= C07 ================= *)
-  Theorem sorter_run_spec c ins out : sorter_run c mf ins = Done out -> sorter_spec mf ins = Done out.
+  (* ================= C07, for the abstract sort ================= *)
+  Theorem gsorter_run_canon c ins out : gsorter_run sortf c mf ins = Done out -> canon ins out.
   Proof.
-    unfold sorter_run, sorter_spec. intro H.
-    destruct (s_inserts c mf (s_new c) ins) as [st| |] eqn:Ei; cbn [bind] in H; try discriminate.
+    unfold gsorter_run. intro H.
+    destruct (gs_inserts sortf c mf (s_new c) ins) as [st| |] eqn:Ei; cbn [bind] in H; try discriminate.
     assert (Hinv0 : SInv [] (s_new c)) by (exists []; split; [constructor|reflexivity]).
     pose proof (s_inserts_inv c ins [] (s_new c) st Hinv0 Ei) as Hinv. cbn [app] in Hinv.
-    unfold s_finish in H. destruct (s_write_chunk mf st) as [st1| |] eqn:Ew; cbn [bind] in H; try discriminate.
+    unfold gs_finish in H. destruct (gs_write_chunk sortf mf st) as [st1| |] eqn:Ew; cbn [bind] in H; try discriminate.
     destruct (write_chunk_inv ins st st1 Hinv Ew) as [(segs & HF & Eh) Hp].
     destruct (merge_canon segs (ss_chunks st1) (ss_calls st1) HF) as (o & Er & Hc). rewrite Er in H. cbn [bind fst] in H. injection H as <-.
-    rewrite write_groups. cbn [bind fst]. f_equal.
-    apply (canon_unique ins); [apply SM_canon|]. rewrite Eh, Hp. cbn [rev]. rewrite app_nil_r. exact Hc.
+    rewrite Eh, Hp. cbn [rev]. rewrite app_nil_r. exact Hc.
   Qed.
 
-  (* the specification: strictly ascending distinct keys, each with the merge of its values in insertion order *)
-  Theorem sorter_spec_canon ins : exists out, sorter_spec mf ins = Done out /\ canon ins out.
-  Proof. clear f_flat. exists (SM ins). unfold sorter_spec. rewrite write_groups. cbn [bind fst]. split; [reflexivity|apply SM_canon]. Qed.
+  (* sort, group, one merge call per key: the canonical merge *)
+  Theorem sorted_groups_canon ins : exists out, (do r <- merge_groups mf 0 (group_sorted (sortf ins)); Done (fst r)) = Done out /\ canon ins out.
+  Proof. clear f_flat. exists (SM ins). rewrite write_groups. cbn [bind fst]. split; [reflexivity|apply SM_canon]. Qed.
 End Canon.
+
+(* ================= C07 ================= *)
+Section Sorter.
+  Variable f : bytes -> list bytes -> bytes.
+  Variable mf : mergefn.
+  Hypothesis mf_pure : forall ord k vs, mf ord k vs = Done (f k vs).
+  Hypothesis f_flat : forall k vss, vss <> [] -> Forall (fun vs => vs <> []) vss -> f k (map (f k) vss) = f k (concat vss).
+
+  (* the specification (stable sort, group, merge): strictly ascending distinct keys, each with the merge
+     of its values in insertion order *)
+  Theorem sorter_spec_canon ins : exists out, sorter_spec mf ins = Done out /\ canon f ins out.
+  Proof.
+    exact (sorted_groups_canon f mf mf_pure sort_entries sort_entries_sorted sort_entries_perm
+             (fun k l => f_equal (f k) (sort_entries_stable k l)) ins).
+  Qed.
+
+  (* any in-memory sort that yields a sorted permutation preserving what f returns per key *)
+  Theorem sorter_any_sort sortf :
+    (forall l, sorted_leb (sortf l) = true) -> (forall l, Permutation (sortf l) l) ->
+    (forall k l, f k (val_in k (sortf l)) = f k (val_in k l)) ->
+    forall c ins out, gsorter_run sortf c mf ins = Done out -> sorter_spec mf ins = Done out.
+  Proof.
+    intros S1 S2 S3 c ins out H.
+    pose proof (gsorter_run_canon f mf mf_pure f_flat sortf S1 S2 S3 c ins out H) as Hc.
+    destruct (sorter_spec_canon ins) as (out' & E & Hc'). rewrite E. f_equal. exact (canon_unique f ins out' out Hc' Hc).
+  Qed.
+
+  (* the transcribed sorter (stable insertion sort) *)
+  Theorem sorter_run_spec c ins out : sorter_run c mf ins = Done out -> sorter_spec mf ins = Done out.
+  Proof.
+    rewrite gsorter_run_stable. apply sorter_any_sort; [exact sort_entries_sorted|exact sort_entries_perm|].
+    intros k l. rewrite sort_entries_stable. reflexivity.
+  Qed.
+
+  (* an unstable sort (any sorted permutation), with a merge function that ignores the order of the values *)
+  Theorem sorter_unstable sortf :
+    (forall l, sorted_leb (sortf l) = true) -> (forall l, Permutation (sortf l) l) ->
+    (forall k vs vs', Permutation vs vs' -> f k vs = f k vs') ->
+    forall c ins out, gsorter_run sortf c mf ins = Done out -> sorter_spec mf ins = Done out.
+  Proof.
+    intros S1 S2 Hperm. apply sorter_any_sort; [exact S1|exact S2|].
+    intros k l. apply Hperm. apply val_in_perm. apply S2.
+  Qed.
+End Sorter.
